@@ -186,6 +186,31 @@ class Run:
 
 
 # ---------------------------------------------------------------------
+# deep_call: run f(*a) below one frame with ~140k unused local slots.  CPython 3.12 keeps frames on a per-thread data
+# stack of 16 KiB chunks that are mmap'd/munmap'd as the recursion depth oscillates across chunk boundaries; cohdl's
+# recursive AST interpreter does that thousands of times per compile (about 90 % of its wall time on a loaded machine).
+# With one huge frame CPython allocates a single big chunk and all nested frames live in its tail.  Pure performance
+# device: semantics of f are untouched.
+# ---------------------------------------------------------------------
+_BIG = None
+
+
+def _tpl(f, *a):
+    return f(*a)
+
+
+def deep_call(f, *a):
+    global _BIG
+    if _BIG is None:
+        import types
+
+        c = _tpl.__code__
+        names = c.co_varnames + tuple(f"_pad{i}" for i in range(140000))
+        _BIG = types.FunctionType(c.replace(co_varnames=names, co_nlocals=len(names)), globals())
+    return _BIG(f, *a)
+
+
+# ---------------------------------------------------------------------
 # process pool helper: tasks are picklable; func(task) -> result dict
 # ---------------------------------------------------------------------
 _pool_func = None
@@ -203,7 +228,7 @@ def _pool_init(func_path, seed):
 
 def _pool_call(task):
     try:
-        return ("ok", _pool_func(task))
+        return ("ok", deep_call(_pool_func, task))
     except ToolError as e:
         return ("tool", f"{e}")
     except BaseException as e:  # noqa
@@ -215,6 +240,7 @@ def pmap(func, tasks, jobs=None, chunksize=1, seed=0):
     Yields ("ok", result) | ("tool", msg) | ("exc", traceback)."""
     tasks = list(tasks)
     jobs = jobs or NCPU
+    deep_call(int)  # build the big frame once in the parent (inherited by forked workers)
     if jobs <= 1 or len(tasks) <= 1:
         for t in tasks:
             global _pool_func
